@@ -13,7 +13,14 @@ def exb():
     return r
 t("C10 local bound only in except body", lambda: probing("exb > only_here").__enter__() and "ok")
 import ptera
-p = ptera.tooled(exb)
+def exb2():
+    try:
+        1/0
+    except ZeroDivisionError as e:
+        only_here = 1
+        r = only_here + 1
+    return r
+p = ptera.tooled(exb2)
 print({k: v["provenance"] for k, v in p.__ptera_info__.items() if not k.startswith("#")})
 def gy():
     x = yield 1
